@@ -129,41 +129,73 @@ func creatorExclusive(c *core.Ctx, r *core.Report, rule string, l *lifecycleRole
 		}
 		r.Check(bad == "", rule, "exclusive:"+core.FnName(f), c.FnPos(f), "the creation step is called only from the creator chain behind the registry's create-once protocol "+bad)
 	}
-	// the literal flows only into GetSingletonOrCreateByFactory
+	// the literal (or factory object) flows only into GetSingletonOrCreateByFactory
 	ro := c.Roles()
-	parent := l.creator.Parent()
-	okFlow := parent == l.accessor
-	if parent != nil {
-		for _, b := range parent.Blocks {
-			for _, in := range b.Instrs {
-				mc, ok := in.(*ssa.MakeClosure)
-				if !ok || mc.Fn != ssa.Value(l.creator) {
-					continue
+	okFlow := false
+	var follow func(v ssa.Value, d int)
+	follow = func(v ssa.Value, d int) {
+		if d > 4 || v.Referrers() == nil {
+			return
+		}
+		for _, rf := range *v.Referrers() {
+			switch x := rf.(type) {
+			case *ssa.ChangeType:
+				follow(x, d+1)
+			case *ssa.MakeInterface:
+				follow(x, d+1)
+			case *ssa.Call:
+				if !core.IsInvoke(x.Common(), ro.SCRGetOrCreate) {
+					okFlow = false
 				}
-				var follow func(v ssa.Value, d int)
-				follow = func(v ssa.Value, d int) {
-					if d > 4 || v.Referrers() == nil {
-						return
-					}
-					for _, rf := range *v.Referrers() {
-						switch x := rf.(type) {
-						case *ssa.ChangeType:
-							follow(x, d+1)
-						case *ssa.MakeInterface:
-							follow(x, d+1)
-						case *ssa.Call:
-							if !core.IsInvoke(x.Common(), ro.SCRGetOrCreate) {
-								okFlow = false
-							}
-						case *ssa.DebugRef:
-						default:
-							okFlow = false
-						}
+			case *ssa.FieldAddr:
+				// initialisation of the factory object's own fields
+				for _, r2 := range *x.Referrers() {
+					if st, isSt := r2.(*ssa.Store); !isSt || st.Addr != ssa.Value(x) {
+						okFlow = false
 					}
 				}
-				follow(mc, 0)
+			case *ssa.DebugRef:
+			default:
+				okFlow = false
 			}
 		}
+	}
+	if l.creator.Signature.Recv() == nil {
+		parent := l.creator.Parent()
+		okFlow = parent == l.accessor
+		if parent != nil {
+			for _, b := range parent.Blocks {
+				for _, in := range b.Instrs {
+					if mc, ok := in.(*ssa.MakeClosure); ok && mc.Fn == ssa.Value(l.creator) {
+						follow(mc, 0)
+					}
+				}
+			}
+		}
+	} else {
+		// factory object: every allocation of its type lies in the accessor and flows only to the registry
+		rt := l.creator.Signature.Recv().Type()
+		if pt, ok := rt.Underlying().(*types.Pointer); ok {
+			rt = pt.Elem()
+		}
+		n := 0
+		okFlow = true
+		for _, fn := range c.Scope {
+			for _, b := range fn.Blocks {
+				for _, in := range b.Instrs {
+					al, ok := in.(*ssa.Alloc)
+					if !ok || !types.Identical(al.Type().Underlying().(*types.Pointer).Elem(), rt) {
+						continue
+					}
+					n++
+					if fn != l.accessor {
+						okFlow = false
+					}
+					follow(al, 0)
+				}
+			}
+		}
+		okFlow = okFlow && n > 0 && len(c.FuncValueUses(l.creator)) == 0 && len(c.Callers(l.creator)) == 0
 	}
 	r.Check(okFlow, rule, "literal-only-to-registry:"+core.FnName(l.creator), c.FnPos(l.creator), "the creator literal is handed only to GetSingletonOrCreateByFactory")
 }
